@@ -257,6 +257,9 @@ type Live struct {
 	// Patience: when the server is quiescent and has written nothing, wait that long (virtual clock) once more
 	// before concluding that there is no answer - for backends that take their time (Backend.SlowAbort).
 	Patience time.Duration
+	// Settle: wait Patience after EVERY send, also when the server has answered already (a server that answers first and
+	// cleans up afterwards - QUIT, a refused chunk - lets a slow backend take its time behind the reply)
+	Settle bool
 	// Pace: the client lets that much (virtual) time pass before every Send - a slow but steady peer.
 	Pace time.Duration
 }
@@ -296,7 +299,7 @@ func NewLiveOn(srv *smtp.Server, cfg Config, be *Backend, implicitTLS bool) *Liv
 // the last call (plaintext).
 func (l *Live) collect() []byte {
 	Wait()
-	if l.Patience > 0 && l.Client.In.Pending() == 0 {
+	if l.Patience > 0 && (l.Client.In.Pending() == 0 || l.Settle) {
 		time.Sleep(l.Patience)
 		Wait()
 	}
